@@ -52,6 +52,25 @@ def f_or(a, b):
     return ("or", a, b)
 
 
+def _unit_if(n):
+    """an if whose branches are blocks without a value expression (statement-like)"""
+    t = n.get("then")
+    if not (isinstance(t, dict) and t.get("k") == "block" and t.get("expr") is None):
+        # a then-block ending in a loop / nested unit if is also value-less
+        if isinstance(t, dict) and t.get("k") == "block" and isinstance(t.get("expr"), dict) and \
+                (t["expr"].get("k") in ("for", "while", "loop") or (t["expr"].get("k") == "if" and _unit_if(t["expr"]))):
+            pass
+        else:
+            return False
+    e = n.get("else")
+    if e is None:
+        return True
+    if e.get("k") == "if":
+        return _unit_if(e)
+    return e.get("k") == "block" and (e.get("expr") is None or
+                                      (isinstance(e.get("expr"), dict) and e["expr"].get("k") in ("for", "while", "loop")))
+
+
 def _walk_binds(p):
     if not isinstance(p, dict):
         return
@@ -276,6 +295,8 @@ class Extract:
                 while isinstance(x, dict) and x.get("k") == "block" and not x.get("stmts"):
                     x = x.get("expr")
                 return self.const_strs(x)
+        if n.get("k") == "ref":
+            return self.const_strs(n.get("e"))
         if n.get("k") == "local":
             # `let table = ["A", "B"];` : an immutable binding of a constant table is that table
             from .facts import CN_INIT
@@ -313,9 +334,18 @@ class Extract:
             return TRUE
         k = c.get("k")
         if k == "lit" and c.get("t") == "bool":
+            if getattr(self, "_flip", False):
+                return FALSE if c.get("v") else TRUE
             return TRUE if c.get("v") else FALSE
         if k == "block" and not c.get("stmts") and c.get("expr") is not None:
             return self.cond(c["expr"], env)
+        if k == "block" and c.get("expr") is not None and all(s_.get("k") == "let" and s_.get("els") is None
+                                                               for s_ in c.get("stmts") or []):
+            # { let a = ..; let b = ..; a && b }: the bindings are read, then the condition
+            e2 = dict(env)
+            for s_ in c["stmts"]:
+                self.do_let(s_, e2)
+            return self.cond(c["expr"], e2)
         if k == "un" and c.get("op") == "!":
             return f_not(self.cond(c["e"], env))
         if k == "ref" or (k == "un" and c.get("op") == "*"):
@@ -681,6 +711,11 @@ class Extract:
                     pres = self.atom("P(%s)" % pl) if pl else self.opt_formula(base, env)
                     return f_and(pres, self.cond(cl["body"], e2))
         if m == "contains" and args:
+            # an argument bound to a constant (closure run once per table member) is that constant
+            a0_ = peel(args[0])
+            if isinstance(a0_, dict) and a0_.get("k") == "local" and env.get(a0_["id"], ("",))[0] == "value" \
+                    and lit_val(peel(env[a0_["id"]][1])) is not None:
+                args = [env[a0_["id"]][1]] + list(args[1:])
             # TABLE.contains(&x.as_str())  |  text.contains("lit")
             strs = self.const_strs(recv)
             if strs is not None:
@@ -791,7 +826,17 @@ class Extract:
         k = n.get("k")
         if k == "block":
             cur = pc
-            for s in n.get("stmts") or []:
+            stmts_ = list(n.get("stmts") or [])
+            tail_ = n.get("expr")
+            if isinstance(tail_, dict) and tail_.get("k") == "if" and _unit_if(tail_):
+                # an `if` without value in tail position is a statement
+                stmts_.append(tail_)
+                tail_ = None
+                n = dict(n, stmts=stmts_, expr=None)
+            for s in stmts_:
+                if s.get("k") == "if" and isinstance(s.get("else"), dict) and s["else"].get("k") == "if":
+                    s = dict(s)
+                    s["else"] = {"k": "block", "stmts": [s["else"]], "expr": None}
                 if s.get("k") == "let":
                     if s.get("els") is not None and s.get("init") is not None:
                         # let PAT = e else { leave }: the rest runs only when the pattern matches
@@ -806,17 +851,31 @@ class Extract:
                     return None
                 if s.get("k") == "if":
                     cc = self.cond(s["cond"], env)
+                    self._cur_out = None
                     tv = self._rf(s["then"], f_and(cur, cc), dict(env), acc)
+                    t_out = self._cur_out if tv is not None else None
+                    self._cur_out = None
                     ev_ = self._rf(s["else"], f_and(cur, f_not(cc)), dict(env), acc) if s.get("else") is not None else TRUE
+                    e_out = self._cur_out if (s.get("else") is not None and ev_ is not None) else None
+                    self._cur_out = None
                     td = tv is None
                     ed = s.get("else") is not None and ev_ is None
                     if td and ed:
                         return None
                     if td:
-                        cur = f_and(cur, f_not(cc))
+                        cur = e_out if e_out is not None else f_and(cur, f_not(cc))
                     elif ed:
-                        cur = f_and(cur, cc)
+                        cur = t_out if t_out is not None else f_and(cur, cc)
+                    elif t_out is not None or e_out is not None:
+                        # what is known when a branch falls through (e.g. a loop in it let every element pass)
+                        cur = f_or(t_out if t_out is not None else f_and(cur, cc),
+                                   e_out if e_out is not None else f_and(cur, f_not(cc)))
                     continue
+                if s.get("k") == "for" and hasattr(self, "rf_for_loop"):
+                    r_ = self.rf_for_loop(s, cur, env, acc)
+                    if r_ is not None:
+                        cur = r_
+                        continue
                 if s.get("k") in ("for", "while", "loop"):
                     # a loop that returns true/false from inside: opaque search
                     inner = []
@@ -826,6 +885,11 @@ class Extract:
                     continue
             if n.get("expr") is not None:
                 e = n["expr"]
+                if e.get("k") == "for" and hasattr(self, "rf_for_loop"):
+                    r_ = self.rf_for_loop(e, cur, env, acc)
+                    if r_ is not None:
+                        self._cur_out = r_
+                        return FALSE      # no boolean value; its returns are in acc, r_ holds after it
                 if e.get("k") in ("for", "while", "loop"):
                     inner = []
                     self._rf(e["body"], TRUE, dict(env), inner)
@@ -848,7 +912,9 @@ class Extract:
                 if e.get("k") == "block":
                     return self._rf(e, cur, env, acc)
                 return f_and(cur, self.cond(e, env))
-            return None
+            # a block without value that falls through: remember what holds at its end
+            self._cur_out = cur
+            return TRUE if getattr(self, "_unit_blocks", True) and n.get("stmts") else None
         if k == "ret":
             acc.append(f_and(pc, self.cond(n.get("e"), env)))
             return None
